@@ -15,12 +15,26 @@ import (
 // tombstone objects TombBase..TombBase+NTomb-1 in each. Every address has ONE
 // fixed content per history (a tombstone's target and expiration are fixed by
 // its first appearance), so "byte-identical" has a unique meaning.
+//
+// Object ID indexes of package uni are PARTITIONED between the containers
+// (container c owns regular IDs c*NReg.. and tombstone IDs TombBase+c*NTomb..):
+// FSTree combined files index their members by object ID only, so one ID in
+// two containers (impossible with real, content-derived IDs) would be a
+// harness artefact.
 const (
 	NCnr     = 2
 	NReg     = 3
 	NTomb    = 3
-	TombBase = 6
+	TombBase = NCnr * NReg
 )
+
+// RegID / TombID map (container, per-container index) to the uni object index.
+func RegID(c, i int) int  { return c*NReg + i }
+func TombID(c, t int) int { return TombBase + c*NTomb + t }
+
+// RegAddr / TombAddr are the addresses.
+func RegAddr(c, i int) oid.Address  { return uni.Addr(c, RegID(c, i)) }
+func TombAddr(c, t int) oid.Address { return uni.Addr(c, TombID(c, t)) }
 
 // RegLens are the payload lengths of the regular objects by index. With the
 // marshalled header (≈150 bytes) they lie on both sides of BatchThreshold, and
@@ -123,10 +137,10 @@ func Universe() []oid.Address {
 	var r []oid.Address
 	for c := 0; c < NCnr; c++ {
 		for i := 0; i < NReg; i++ {
-			r = append(r, uni.Addr(c, i))
+			r = append(r, RegAddr(c, i))
 		}
 		for t := 0; t < NTomb; t++ {
-			r = append(r, uni.Addr(c, TombBase+t))
+			r = append(r, TombAddr(c, t))
 		}
 	}
 	return r
@@ -134,11 +148,11 @@ func Universe() []oid.Address {
 
 // RegSpec is the fixed spec of regular object (c,i).
 func RegSpec(c, i int) uni.Spec {
-	return uni.Spec{Kind: uni.Regular, Cnr: c, ID: i, Exp: -1, Parent: -1, ParentExp: -1, First: -1, PayloadLen: RegLens[i]}
+	return uni.Spec{Kind: uni.Regular, Cnr: c, ID: RegID(c, i), Exp: -1, Parent: -1, ParentExp: -1, First: -1, PayloadLen: RegLens[i]}
 }
 
 func tombSpec(o Op) uni.Spec {
-	return uni.Spec{Kind: uni.Tombstone, Cnr: o.C, ID: TombBase + o.T, Exp: o.Exp, Target: o.I, Parent: -1, ParentExp: -1, First: -1}
+	return uni.Spec{Kind: uni.Tombstone, Cnr: o.C, ID: TombID(o.C, o.T), Exp: o.Exp, Target: RegID(o.C, o.I), Parent: -1, ParentExp: -1, First: -1}
 }
 
 func (w *World) remember(s uni.Spec) {
@@ -215,16 +229,17 @@ func (w *World) Draw(t *rapid.T, al Allow, inner bool) Op {
 			kinds = append(kinds, k)
 		}
 	}
-	add(KPut, 4)
 	if w.anyPresent() {
-		add(KTomb, 2)
-		add(KMark, 3)
-		add(KDel, 1)
+		add(KPut, 3)
+		add(KTomb, 3)
+		add(KMark, 4)
+		add(KDel, 2)
 	} else {
+		add(KPut, 6)
 		add(KTomb, 1)
 	}
 	if w.anyPending() {
-		add(KGC, 4)
+		add(KGC, 6)
 	} else {
 		add(KGC, 1)
 	}
@@ -351,13 +366,13 @@ func (w *World) Apply(op Op) error {
 		if op.Mark == 1 {
 			m = meta.GarbageMarkRedundant
 		}
-		opErr = sh.MarkGarbage(uni.Cnr(op.C), []oid.ID{uni.OID(op.I)}, m)
+		opErr = sh.MarkGarbage(uni.Cnr(op.C), []oid.ID{uni.OID(RegID(op.C, op.I))}, m)
 		if opErr == nil {
 			w.Pending[op.C][op.I] = true
 			w.Present[op.C][op.I] = false
 		}
 	case KDel:
-		opErr = sh.Delete(uni.Cnr(op.C), []oid.ID{uni.OID(op.I)})
+		opErr = sh.Delete(uni.Cnr(op.C), []oid.ID{uni.OID(RegID(op.C, op.I))})
 		w.Present[op.C][op.I] = false
 		w.Pending[op.C][op.I] = false
 		w.MaybeCached[op.C][op.I] = false
@@ -375,7 +390,7 @@ func (w *World) Apply(op Op) error {
 		w.MaybeCached = [NCnr][NReg]bool{}
 	case KRace:
 		w.Races++
-		w.R.ArmPause(uni.Addr(op.C, op.I))
+		w.R.ArmPause(RegAddr(op.C, op.I))
 		if w.R.WaitPaused() {
 			w.RacesParked++
 			for _, in := range op.Inner {
